@@ -22,7 +22,7 @@ META = dict(
                 "with interventions passed as dict (keys inserted in ascending and in descending order), {} or None. (low, high) ranges: every sampled mean / variance is low + (high-low)*U "
                 "with its own uniform variate, hence inside the range.",
     bounds=dict(quick="p <= 2 all intervention assignments (11 per variable: none, do/noise/shift with tuple or scalar parameter, the 4 overlaps); p = 3 with at most 2 intervened variables; integer-typed models p <= 2 all, p = 3 at most 1 intervened variable; ranges p <= 3",
-                thorough="p = 3 all assignments (float and int); p = 4 with at most 2 intervened variables"),
+                thorough="p = 3: float all single-kind assignments, int at most 2 intervened variables; p = 4 with at most 1 intervened variable (single kinds)"),
     outside=["floating-point rounding in inv / matmul", "numpy scalar types (np.float64) as scalar parameters", "p > 4"],
     stubs=["numpy -> symnp", "numpy.linalg.inv -> exact adjugate/determinant contract stub", "numpy.random.default_rng -> contract stub (uniform = low + (high-low)*U, 0 <= U < 1)"],
     assumptions=["z3 sound"],
@@ -181,18 +181,22 @@ def obligations(tier):
     ob.append(Obligation('law_float_none_p2', h_law('float', 'none'), I.dag_pair_cubes(2, 0), "interventions passed as None / {} , 2 variables",
                          expect=('returned',), weight=5))
     full3 = tier == 'thorough'
-    ob.append(Obligation('law_float_p3', h_law('float'), [dict(c, max_targets=None if full3 else 2) for c in I.dag_pair_cubes(3, 3)],
-                         "population law, float model, 3 variables" + ("" if full3 else ", at most 2 intervened variables"),
+    ob.append(Obligation('law_float_p3', h_law('float'), [dict(c, max_targets=2) for c in I.dag_pair_cubes(3, 3)],
+                         "population law, float model, 3 variables, at most 2 intervened variables",
                          expect=('returned',), weight=50, timeout_ms=120000))
-    ob.append(Obligation('law_int_p3', h_law('int'), [dict(c, max_targets=None if full3 else 1) for c in I.dag_pair_cubes(3, 3)],
-                         "population law, integer-typed model, 3 variables" + ("" if full3 else ", at most 1 intervened variable"),
+    ob.append(Obligation('law_int_p3', h_law('int'), [dict(c, max_targets=2 if full3 else 1) for c in I.dag_pair_cubes(3, 3)],
+                         "population law, integer-typed model, 3 variables, at most %d intervened variable(s)" % (2 if full3 else 1),
                          expect=('returned',), weight=40, timeout_ms=120000))
+    if full3:
+        ob.append(Obligation('law_float_p3_all', h_law('float'), [dict(c, kinds_simple=True) for c in I.dag_pair_cubes(3, 3)],
+                             "population law, float model, 3 variables, every variable none / do / noise / shift (no overlaps)",
+                             expect=('returned',), weight=60, timeout_ms=120000))
     for p in (1, 2, 3):
         ob.append(Obligation('ranges_p%d' % p, h_ranges, I.dag_pair_cubes(p, 0), "(low, high) ranges for means and variances, %d variables" % p,
                              expect=('returned',), weight=p))
     if tier == 'thorough':
-        ob.append(Obligation('law_float_p4', h_law('float'), [dict(c, max_targets=2) for c in I.dag_pair_cubes(4, 4)],
-                             "population law, float model, 4 variables, at most 2 intervened variables", expect=('returned',), weight=200, timeout_ms=180000))
+        ob.append(Obligation('law_float_p4', h_law('float'), [dict(c, max_targets=1, kinds_simple=True) for c in I.dag_pair_cubes(4, 5)],
+                             "population law, float model, 4 variables, at most 1 intervened variable (single kinds)", expect=('returned',), weight=200, timeout_ms=180000))
     return ob
 
 
